@@ -184,7 +184,7 @@ CHECKS = {
         level='translation_validation',
         technique='generated shared-node IR DAGs (expression API and direct ir constructors) rendered with CSERenderer and PlainRenderer; binder-identity scope checking, let-erasure comparison and differential evaluation in a reference interpreter',
         text='~4.5k DAGs per quick run incl. lets depending on lambda variables, agg/scan scopes and nested lambdas; both texts are parsed and related.',
-        note='Trusts vlib/irtools.py (reader + binding table transcribed from Binds.scala/Env.scala) and the reference interpreter; aggregations in scans are scope/substitution-checked only. Six known signatures (two root causes).'),
+        note='Trusts vlib/irtools.py (reader + binding table transcribed from Binds.scala/Env.scala) and the reference interpreter; aggregations and scans are evaluated over explicit row lists (Sum/Count/Collect/Take; filter/explode/group-by/per-element contexts), and a let that aggregates must sit under the context chain of each use. Six known signatures (two root causes).'),
     'C36': dict(
         level='exploration',
         technique='typed-program generation over the expression/Table/MatrixTable APIs without execution; an independent bottom-up type inferencer over the emitted IR text with rules written from the Scala InferType/TypeCheck/TableIR/MatrixIR',
